@@ -222,13 +222,14 @@ func genStop(r *Rng, i int, tier string) string {
 
 func init() {
 	register(&Driver{
-		Name:     "stop",
-		Header:   "From ZenoV Require Import Lib.Harness Pipe.StopLts Pipe.StopHarness.\nOpen Scope N_scope.\n",
-		CaseType: "scase",
-		Footer:   stdFooter,
-		Rule:     "non-trivial: Stop() was called and at least one WARC record had been written; distinct by input line",
-		Gen:      genStop,
-		Exec:     execStop,
-		Parallel: 6,
+		Name:           "stop",
+		Header:         "From ZenoV Require Import Lib.Harness Pipe.StopLts Pipe.StopHarness.\nOpen Scope N_scope.\n",
+		CaseType:       "scase",
+		Footer:         stdFooter,
+		Rule:           "non-trivial: Stop() was called and at least one WARC record had been written; distinct by input line",
+		Gen:            genStop,
+		Exec:           execStop,
+		Parallel:       6,
+		CaseTimeoutSec: 900,
 	})
 }
